@@ -28,6 +28,9 @@ def configs(ctx):
         for wiring in ("run", "lib"):
             out.append(dc(op="pg", n=3, proposal=prop, wiring=wiring, data_seed=16, grid=5))
             out.append(dc(op="pg", n=3, proposal=prop, wiring=wiring, outlier_prob=0.1, alpha=2.5, data_seed=17))
+    r0 = random.Random(ctx.sub("sym"))
+    # four exchangeable data points: one start state per orbit of the symmetric group determines the whole 243-state kernel
+    out.append(dc(op="pg", n=4, style="flat", symmetric=1, proposal=r0.choice(PROPOSALS), wiring="run", alpha=r0.choice([0.7, 1.0, 2.3]), data_seed=29))
     mandatory = len(out)
     r = random.Random(ctx.sub("cfg"))
     for i in range(16 if quick else 200):
@@ -37,6 +40,8 @@ def configs(ctx):
         out.append(kernelcheck.cost_guard(c))
     if not quick:
         for prop in PROPOSALS:
+            out.append(dc(op="pg", n=4, style="flat", symmetric=1, proposal=prop, wiring="lib", outlier_prob=0.2, data_seed=30, alpha=1.6))
+            out.append(dc(op="pg", n=4, style="flat", symmetric=1, proposal=prop, wiring="run", N=3, data_seed=31))
             out.append(dc(op="pg", n=4, proposal=prop, wiring="run", data_seed=18, alpha=1.7))
             out.append(dc(op="pg", n=4, proposal=prop, wiring="lib", outlier_prob=0.05, data_seed=19))
             out.append(dc(op="pg", n=3, N=3, proposal=prop, wiring="run", threshold=1.0, data_seed=20))
